@@ -172,9 +172,10 @@ class FlavouredHierarchy:
         K1 = type("K1", (K0,), dict(ns))
         K2 = type("K2", (), dict(ns))
         classes = {"K0": K0, "K1": K1, "K2": K2}
-        if flavour in ("abc", "both"):
+        if flavour in ("abc", "both", "abc-sub"):
             A = _abc.ABCMeta("A", (), dict(ns))
-            A.register(K2)
+            # "abc-sub": the virtual subclass is K1, whose only base K0 is NOT accepted by A
+            A.register(K1 if flavour == "abc-sub" else K2)
             classes["A"] = A
         if flavour in ("proto", "both", "twins"):
             P = typing.runtime_checkable(type("P", (typing.Protocol,), dict(ns, pm=lambda self: 1)))
